@@ -101,6 +101,11 @@ class Recorder:
         return out
 
     def finish(self, shard_name):
+        try:
+            _ = {o: 1 for o in self.kept}  # using an object as a key must not change it either
+            _ = sorted(self.kept, key=str)
+        except Exception as e:  # noqa: BLE001
+            self.mon.viol("earlier_objects_not_usable_as_keys", {"error": repr(e)[:200]}, "hashable, sortable", repr(e)[:200])
         for o, (st, dct) in zip(self.kept, self.kept_state):
             now = calls.canon(o)
             if now != st or dict(getattr(o, "__dict__", {})) != dct:
